@@ -129,6 +129,27 @@ func tableOracle(c TableCase, o *h.Obs) *h.Fail {
 		if v.Type().Comparable() && !isFloat && v.Kind() != reflect.Interface && mv.Interface() != v.Interface() {
 			return h.Failf("C19|table|import-value-differs|"+o.Key, "%s of import(%q) is %v, table has %v", c.Name, c.Pkg, mv, v)
 		}
+		// the Go identifier of that name, referenced at compile time
+		ref, ok := refValues[c.Pkg+"."+c.Name]
+		if !ok {
+			o.Class("table:variable_without_reference_value")
+			return nil
+		}
+		o.Class("table:variable_compared_with_go_identifier")
+		rv := reflect.ValueOf(ref)
+		if rv.Type() != v.Type() {
+			return h.Failf("C19|table|wrong-value|"+o.Key, "Packages[%q][%q] has type %s; the Go identifier %s.%s has type %s", c.Pkg, c.Name, v.Type(), path, c.Name, rv.Type())
+		}
+		same := false
+		switch v.Kind() {
+		case reflect.Ptr, reflect.Chan, reflect.UnsafePointer:
+			same = v.Pointer() == rv.Pointer()
+		default:
+			same = reflect.DeepEqual(v.Interface(), ref)
+		}
+		if !same {
+			return h.Failf("C19|table|wrong-value|"+o.Key, "Packages[%q][%q] is %v; the Go identifier %s.%s is %v", c.Pkg, c.Name, v, path, c.Name, rv)
+		}
 		return nil
 	}
 	if v.IsNil() {
@@ -198,12 +219,22 @@ func runTables(c *h.Ctx) {
 		if err := json.Unmarshal(raw, &tc); err != nil {
 			return nil, err
 		}
+		if !tc.Type {
+			// the history of the search: every rebinding form on this very entry first
+			for _, f := range rebindForms {
+				ank.Exec(env.NewEnv(), fmt.Sprintf(f, tc.Pkg, tc.Name))
+			}
+		}
 		return tableOracle(tc, &h.Obs{}), nil
 	})
 	if replaying() {
 		return
 	}
 	entries := tableEntries()
+	// history: before the entries are compared, scripts in throw-away environments rebind symbols
+	// of what import() handed them (directly, through a parameter, through a container element):
+	// what later imports offer must still be the table entries
+	nreb := rebindImported(c, entries)
 	nf, nt := 0, 0
 	for _, tc := range entries {
 		o := &h.Obs{}
@@ -230,6 +261,37 @@ func runTables(c *h.Ctx) {
 		c.Extra("exhaustive_table_value_entries", nf)
 		c.Extra("exhaustive_table_type_entries", nt)
 		c.Extra("exhaustive_table_packages", len(env.Packages))
+		c.Extra("import_rebinding_scripts_run_before_the_comparison", nreb)
 		c.Extra("package_tables_exhaustive_note", "package tables: every entry of env.Packages and env.PackageTypes of the tree under test was checked")
 	}
+}
+
+// rebindImported runs, for a seed-dependent choice of function entries of every package, scripts that
+// assign to a member of the imported package scope without copying it first. Returns the number run.
+func rebindImported(c *h.Ctx, entries []TableCase) int {
+	forms := rebindForms
+	n := 0
+	x := c.Seed*0x9E3779B97F4A7C15 + 12345
+	for _, tc := range entries {
+		if tc.Type {
+			continue
+		}
+		x ^= x << 13
+		x ^= x >> 7
+		x ^= x << 17
+		if x%5 != 0 {
+			continue
+		}
+		src := fmt.Sprintf(forms[(x>>8)%uint64(len(forms))], tc.Pkg, tc.Name)
+		ank.Exec(env.NewEnv(), src) // errors do not matter here
+		n++
+	}
+	return n
+}
+
+var rebindForms = []string{
+	"import(%q).%s = nil",
+	"func(m) { m.%[2]s = 1 }(import(%[1]q))",
+	"libs = {\"p\": import(%[1]q)}\nlibs[\"p\"].%[2]s = \"rebound\"",
+	"[import(%[1]q)][0].%[2]s = func() { return 0 }",
 }
